@@ -1,4 +1,5 @@
 import GitSizer.Proofs.Human
+import GitSizer.Proofs.HumanFloat4
 /-! # C12 — Human-readable numbers
     Theorems about the model `Human.formatNum` instantiated with the prefix tables REGENERATED from
     counts/human.go. The float part of the model (float64 conversion, division, %.Nf) is exact
@@ -69,6 +70,70 @@ theorem decimals_spec (w : Nat) :
     (w ≥ 100 → decimals w = 0) ∧ (10 ≤ w ∧ w < 100 → decimals w = 1) ∧ (w < 10 → decimals w = 2) := by
   unfold decimals; refine ⟨?_, ?_, ?_⟩ <;> intro h <;> split <;> (try split) <;> omega
 
+/-! ## the float part: digits, length, half a unit, monotonicity
+
+The exact integer model of `float64(n) / float64(multiplier)` and `%.Nf` (`Model/Human`:
+`rhe`, `norm53`, `rn53`, `fmtFixedN`) is proved correct in `Proofs/Float*` (round-half-even within
+1/2 and monotone; `rn53` = quotient rounded to 53 bits: relative error ≤ 2^-53, monotone, exact on
+53-bit dyadics) and validated string-exactly against Go's own arithmetic on every run.
+`TableOK` collects the decidable facts about a prefix table the proofs use (multipliers exactly
+representable, each divides the larger ones, consecutive ratio ≤ 1024, top multiplier ≥ 2^64/18447,
+each a multiple of 200 or a power of two); it is evaluated on the REGENERATED tables. -/
+
+theorem metric_ok : TableOK Gen.Tables.metricPrefixes := by decide +kernel
+theorem binary_ok : TableOK Gen.Tables.binaryPrefixes := by decide +kernel
+
+/-- **at least three significant digits, at most five characters**, every n < 2^64, both systems:
+    with a prefix the numeral m/10^d has 100 ≤ m (three digits, the leading one non-zero) and the
+    rendered string is 3 to 5 characters long. -/
+theorem three_digits_five_chars {t : List Prefix} (ok : TableOK t) (n : Nat) (hn : n < 2 ^ 64)
+    (m d : Nat) (pfx : Prefix) (h : formatNum t n = .scaled m d pfx) :
+    100 ≤ m ∧ 3 ≤ (Num.render (.scaled m d pfx)).1.length ∧ (Num.render (.scaled m d pfx)).1.length ≤ 5 := by
+  obtain ⟨h1, h2, h3⟩ := scaled_digits ok n hn m d pfx h
+  exact ⟨h1, renderFixed_length m d h1 h2 h3⟩
+
+/-- without a prefix the value itself is printed, in at most four characters -/
+theorem exact_at_most_four_chars {t : List Prefix} (ok : TableOK t) (n k : Nat)
+    (h : formatNum t n = .exact k) : k = n ∧ (Num.render (.exact k)).1.length ≤ 4 := by
+  by_cases h1 : (selectPrefix t n).2.2 = 1
+  · rw [formatNum_exact t n h1] at h
+    injection h with h; subst h
+    refine ⟨rfl, ?_⟩
+    obtain ⟨hmem, _, _, _, hmax⟩ := selectPrefix_spec ok.wf n
+    have hlt : n < 1024 := by
+      rcases ok.ratio _ hmem with ⟨q, hq, hlt, hle⟩ | hbig
+      · by_contra hc
+        have := hmax q hq (by omega); omega
+      · omega
+    simp only [Num.render]
+    exact (Nat.length_repr_le_iff (by omega)).mpr (by omega)
+  · rw [formatNum_scaled t n h1] at h; cases h
+
+/-- **half a unit in the last displayed digit**, every n < 2^53, both systems:
+    |m·P − n·10^d|·2 ≤ P, i.e. |numeral·multiplier − n| ≤ multiplier / (2·10^d).
+    (For n ≥ 2^53 the bound fails — F11 below — because float64(n) already moves n.) -/
+theorem half_unit_below_2_53 {t : List Prefix} (ok : TableOK t) (n : Nat) (h53 : n < 2 ^ 53)
+    (m d : Nat) (pfx : Prefix) (h : formatNum t n = .scaled m d pfx) :
+    2 * (m * pfx.2) ≤ 2 * (n * 10 ^ d) + pfx.2 ∧ 2 * (n * 10 ^ d) ≤ 2 * (m * pfx.2) + pfx.2 :=
+  scaled_half_unit ok n h53 m d pfx h
+
+/-- **the rendered magnitude is monotonically non-decreasing**, all n₁ ≤ n₂ < 2^64, across every
+    change of prefix and of the number of decimals -/
+theorem monotone {t : List Prefix} (ok : TableOK t) (n1 n2 : Nat) (h : n1 ≤ n2) (hn : n2 < 2 ^ 64) :
+    Num.le (formatNum t n1) (formatNum t n2) := formatNum_mono ok n1 n2 h hn
+
+theorem monotone_metric (n1 n2 : Nat) (h : n1 ≤ n2) (hn : n2 < 2 ^ 64) :
+    Num.le (formatNum Gen.Tables.metricPrefixes n1) (formatNum Gen.Tables.metricPrefixes n2) :=
+  monotone metric_ok n1 n2 h hn
+theorem monotone_binary (n1 n2 : Nat) (h : n1 ≤ n2) (hn : n2 < 2 ^ 64) :
+    Num.le (formatNum Gen.Tables.binaryPrefixes n1) (formatNum Gen.Tables.binaryPrefixes n2) :=
+  monotone binary_ok n1 n2 h hn
+
+/-- the float model's error bound, as used above: `float64(a)/float64(b)`-style rounding of a
+    quotient has relative error at most 2^-53 and is monotone -/
+theorem rounding_correct (a b : Nat) (ha : 0 < a) (hb : 0 < b) :
+    |(rn53 a b).val - (a : ℚ) / b| ≤ (a : ℚ) / b / 2 ^ 53 := rn53_error a b ha hb
+
 /-- recorded finding F11 (kernel-evaluated on the model): the half-unit bound fails for this n ≥ 2^53 -/
 theorem half_unit_witness_F11 :
     formatNum Gen.Tables.metricPrefixes 18445499999999999999 = .scaled 18446 0 ("P", 1000000000000000)
@@ -77,5 +142,8 @@ theorem half_unit_witness_F11 :
 
 /-- non-vacuity -/
 example : formatNumber Gen.Tables.binaryPrefixes 1536 "B" = ("1.50", "KiB") := by decide +kernel
+example : formatNum Gen.Tables.metricPrefixes 999999 = .scaled 1000 0 ("k", 1000) := by decide +kernel
+example : Num.le (formatNum Gen.Tables.metricPrefixes 999999) (formatNum Gen.Tables.metricPrefixes 1000000) := by
+  decide +kernel
 
 end GitSizer.C12
